@@ -147,6 +147,7 @@ structure Case where
   crash : Option String := none
   corrOnly : Bool := false
   propOnly : Bool := false
+  dump : Bool := false
 
 def addToLast (a : Array Round) (f : Round → Round) : Array Round :=
   if a.size == 0 then a else a.modify (a.size - 1) f
@@ -220,13 +221,22 @@ def finishCase (c : Case) : List String :=
   let props :=
     if c.corrOnly then []
     else (Pyrtma.Mgr.Spec.checkAll c.cfg rounds oev c.crash).map (fun p => s!"{c.id} PROP {p.1} {p.2}")
-  corr ++ props
+  -- `MODE dump`: additionally print both event streams of the first round that differs (debugging aid)
+  let dump :=
+    if !c.dump then []
+    else
+      let m := mev.map (·.filterMap (projEv "all"))
+      let o := oev.map (·.filterMap (projEv "all"))
+      let idx := ((List.zip m o).takeWhile (fun p => p.1 == p.2)).length
+      (m.getD idx []).map (fun e => s!"{c.id} DUMP model round {idx}: {e}") ++
+      (o.getD idx []).map (fun e => s!"{c.id} DUMP impl  round {idx}: {e}")
+  corr ++ props ++ dump
 
 def step (c : Case) (line : String) : Case × List String :=
   match toks line with
   | ["CASE", id] => ({ id := id }, [])
   | "CFG" :: kvs => ({ c with cfg := kvs.foldl setCfg c.cfg }, [])
-  | ["MODE", m] => ({ c with corrOnly := m == "corr", propOnly := m == "prop" }, [])
+  | ["MODE", m] => ({ c with corrOnly := m == "corr", propOnly := m == "prop", dump := m == "dump" }, [])
   | "ROUND" :: dt :: acc :: "W" :: ws =>
     ({ c with rounds := c.rounds.push { dt := natOf dt, accept := acc == "1", writable := ws.map natOf } }, [])
   | ["FAIL", u, m] => ({ c with rounds := addToLast c.rounds (fun r => { r with failSet := r.failSet ++ [(natOf u, parseFail m)] }) }, [])
